@@ -3,8 +3,8 @@ package checks
 import (
 	"encoding/json"
 	"fmt"
-	"strconv"
 	"sort"
+	"strconv"
 	"strings"
 
 	"git.defalsify.org/vise.git/cache"
